@@ -237,6 +237,8 @@ func vh_gate() {
 	if !open {
 		vCover("gate.closed")
 		vAssert(!consumed, "C07.gate.closed-request-stays-queued")
+		// in particular no membership change before an entry of the leader's own term is committed (single-server change safety)
+		vAssert(!consumed, "C03.gate.no-membership-change-before-own-term-commit")
 		vAssert(post.storeCalls == pre.storeCalls && post.latestIndex == pre.latestIndex, "C07.gate.closed-no-effect")
 		vReach("gate.end")
 		return
